@@ -5,8 +5,10 @@
    printer omits parentheses for the parent / position / child-kind combinations listed in
    [Shape.bad_pair]; each entry is refuted below by a witness ([C09_refuted_*]), and the statement
    is proved for the complement ([C09_partial]).  Scope of the proved fragment: every node kind
-   except array literals and LAMBDA definitions / calls ([Shape.fragment]), the display forms in
-   every locale and language and the stored R1C1 form ([pm_xlsx m = false]). *)
+   except array literals and LAMBDA definitions / calls ([Shape.fragment]); all three text forms:
+   the display form in every locale and language, the stored R1C1 form, and the xlsx form (the
+   printer with export_to_excel = true, where "@x" and "x#" are function calls and therefore never
+   bad pairs). *)
 From IronCalc Require Import Base.Prelude Codec.RefA1 Syntax.Token Syntax.Ast Syntax.Printer Syntax.Parser
   Syntax.Shape Syntax.ShapeProofs Syntax.GlueProofs Syntax.RoundTrip Syntax.Refuted.
 
@@ -29,16 +31,16 @@ Print Assumptions C09_bad_pair_table.
 
 (* the complement: no bad pair (and no array, no LAMBDA, lower-case user function names) *)
 Theorem C09_partial :
-  forall m nm env, pm_xlsx m = false ->
-  forall e, image m nm env e = true -> fragment e = true -> no_bad false e = true -> lower_stable nm e = true ->
+  forall m nm env e,
+  image m nm env e = true -> fragment e = true -> no_bad (pm_xlsx m) e = true -> lower_stable nm e = true ->
   forall f, (size e + 2 <= f)%nat -> parse_fuel m nm env f (print m nm e) = Some (e, []).
 Proof. exact roundtrip. Qed.
 Print Assumptions C09_partial.
 
 (* where the lexer reads the printed tokens back one by one, that is the property itself *)
 Theorem C09_partial_lexed :
-  forall m nm env, pm_xlsx m = false ->
-  forall e, image m nm env e = true -> fragment e = true -> no_bad false e = true -> lower_stable nm e = true ->
+  forall m nm env e,
+  image m nm env e = true -> fragment e = true -> no_bad (pm_xlsx m) e = true -> lower_stable nm e = true ->
   glue_free (pm_rc m) (print m nm e) = true ->
   forall f, (size e + 2 <= f)%nat -> parse_fuel m nm env f (glue (pm_rc m) (print m nm e)) = Some (e, []).
 Proof. exact roundtrip_glued. Qed.
